@@ -8,7 +8,7 @@ from concurrent.futures import ThreadPoolExecutor
 import lib
 import rules as R
 import c13
-from lib import esc_list, unesc, unesc_list
+from lib import esc, esc_list, unesc, unesc_list
 
 THEOREMS = ['C06.C06_single_attachment', 'C06.C06_nest_shape', 'C06.C06_expand_nest', 'C06.C06_nest_language']
 
@@ -154,6 +154,45 @@ def run(ctx):
             pass
     ctx.cov['search']['nesting'] = {'preambles': len(cases), 'language_differs': nn}
 
+    # ---- history: the userspace builder on a sequence of profiles in ONE process (a build is exactly that).  Some profiles
+    # append to a built-in tunable or define their own variable; the header a profile gets must not depend on which profiles
+    # were built before it: the same sequence is run in two orders and every differing answer is settled in a fresh process.
+    nh = 120 if ctx.tier == 'quick' else 3000
+    hist = []
+    for i in range(nh):
+        var = rng.choice(['lib', 'bin', 'sbin', 'run', 'etc_ro', 'multiarch', 'user_share_dirs', 'MOUNTS', 'HOME'])
+        pre = ['abi <abi/4.0>,', 'include <tunables/global>', '']
+        k = rng.random()
+        if k < 0.3:
+            pre.append('@{%s} += %s' % (var, rng.choice(['/opt/vendor/%s' % var, '/srv/x{a,b}', '/nix/store/*/lib'])))
+        elif k < 0.4:
+            pre.append('@{own} = /opt/own%d' % i)
+            var = rng.choice([var, 'own'])
+        tail = rng.choice(['/app%d' % i, '/{a,b}/x', '/foo-*', ''])
+        pre.append('@{exec_path} = @{%s}%s' % (var, tail) + (rng.choice(['', ' @{bin}/alt%d' % i])))
+        name = 'hist-prof-%d' % i
+        text = '\n'.join(pre) + '\nprofile %s @{exec_path} {\n  include <abstractions/base>\n\n  @{exec_path} mr,\n\n  include if exists <local/%s>\n}\n' % (name, name)
+        hist.append('%s\t%s\t%s' % (esc_list(['userspace']), esc('profiles-g-l/' + name), esc(text)))
+    fwd = ctx.run_go('builder', hist)
+    order = list(range(nh))
+    rng.shuffle(order)
+    shuf = ctx.run_go('builder', [hist[i] for i in order])
+    back = dict(zip(order, shuf))
+    nhist = 0
+    for i in range(nh):
+        if fwd[i] == back[i]:
+            continue
+        alone = ctx.run_go('builder', [hist[i]])[0]
+        for label, got, prior in (('in generation order', fwd[i], hist[:i]), ('in shuffled order', back[i], [hist[j] for j in order[:order.index(i)]])):
+            if got != alone:
+                nhist += 1
+                if nhist <= 3:
+                    hdr = lambda o: next((l for l in unesc(o[3:]).split('\n') if l.startswith('profile ')), o[:200]) if o.startswith('ok\t') else o[:200]
+                    ctx.violation('userspace builder: the header of a profile depends on the profiles built before it in the same process (%s): %r, alone %r' % (
+                        label, hdr(got), hdr(alone)), {'history': prior[-40:] + [hist[i]], 'suite': 'builder', 'got': got[:1500], 'alone': alone[:1500]})
+    ctx.cov['search']['userspace_history'] = {'profiles': nh, 'orders': 2, 'order_dependent': nhist}
+    ctx.cov['evaluations'] += 2 * nh
+
     # ---- search: every built profile, the reference parser's expansion of @{exec_path} as the oracle -----------
     cfgs = [lib.Cfg('arch', 3, '3.0'), lib.Cfg('debian', 3, '3.0', full=True), lib.Cfg('opensuse', 3, '3.0')]      # opensuse: its own multiarch value
     if ctx.tier == 'thorough':
@@ -286,5 +325,11 @@ def run(ctx):
 
 
 def replay(ctx, data):
+    if 'history' in data:
+        ctx.build_go(prebuild=True)
+        out = ctx.run_go(data.get('suite', 'builder'), data['history'])
+        print('after the history :', out[-1][:600])
+        print('alone             :', ctx.run_go(data.get('suite', 'builder'), data['history'][-1:])[0][:600])
+        return 0
     print(data)
     return 0
